@@ -364,6 +364,71 @@ func poseidonDrv(raw json.RawMessage, resp *drv.Response) error {
 				}
 			}
 		}
+	case "glconst":
+		// the permutation and the sponge on gnark's real builders with the state given as COMPILE-TIME CONSTANTS (a builder may fold
+		// constants on the host side, in machine words): the compiled system must accept exactly the reference output
+		pm1 := new(big.Int).Sub(bigP, one)
+		mkState := func(f func(i int) *big.Int) []*big.Int {
+			s := make([]*big.Int, 12)
+			for i := range s {
+				s[i] = f(i)
+			}
+			return s
+		}
+		states := [][]*big.Int{
+			mkState(func(i int) *big.Int { return big.NewInt(0) }),
+			mkState(func(i int) *big.Int { return big.NewInt(int64(i + 1)) }),
+			mkState(func(i int) *big.Int { return pm1 }),
+			mkState(func(i int) *big.Int {
+				if i == 3 {
+					return pm1
+				}
+				return big.NewInt(0)
+			}),
+			mkState(func(i int) *big.Int { return drv.RandBelow(rng, bigP) }),
+			mkState(func(i int) *big.Int { return new(big.Int).Sub(bigP, big.NewInt(int64(1+rng.Intn(1<<30)))) }),
+		}
+		for si, st := range states {
+			want := o.GlPerm(st)
+			for _, sys := range []string{"r1cs", "scs"} {
+				stage, err := solveOnBuilder(sys, nil, want, func(api frontend.API, in []frontend.Variable) []frontend.Variable {
+					var s poseidon.GoldilocksState
+					for i := range s {
+						s[i] = gl.NewVariable(new(big.Int).Set(st[i])) // a constant, not a wire
+					}
+					out := poseidon.NewGoldilocksChip(api).Poseidon(s)
+					res := make([]frontend.Variable, 12)
+					for i := range res {
+						res[i] = out[i].Limb
+					}
+					return res
+				})
+				resp.Count(fmt.Sprintf("glconst/%s/%d/%v", sys, si, st[3]), false)
+				if err != nil {
+					resp.Violate("c09/perm-constants/"+stage+" sys="+sys, fmt.Sprintf("Poseidon on the constant state %v compiled with the real %s builder does not accept the reference output (%s: %s)", strsOf(st), sys, stage, firstLine(err)), map[string]any{"state": strsOf(st)})
+				}
+			}
+		}
+		// the sponge on constant inputs (incl. the empty input)
+		for _, n := range []int{0, 1, 8, 9} {
+			in := make([]*big.Int, n)
+			for i := range in {
+				in[i] = new(big.Int).Sub(bigP, big.NewInt(int64(1+i)))
+			}
+			want := o.GlHashNoPad(in)
+			stage, err := solveOnBuilder("r1cs", nil, want, func(api frontend.API, _ []frontend.Variable) []frontend.Variable {
+				vs := make([]gl.Variable, n)
+				for i := range vs {
+					vs[i] = gl.NewVariable(new(big.Int).Set(in[i]))
+				}
+				h := poseidon.NewGoldilocksChip(api).HashNoPad(vs)
+				return []frontend.Variable{h[0].Limb, h[1].Limb, h[2].Limb, h[3].Limb}
+			})
+			resp.Count(fmt.Sprintf("glconst-hash/%d", n), false)
+			if err != nil {
+				resp.Violate("c09/hash-constants/"+stage, fmt.Sprintf("HashNoPad on %d constant inputs compiled with the real r1cs builder does not accept the reference output (%s: %s)", n, stage, firstLine(err)), map[string]any{"n": n})
+			}
+		}
 	case "bnperm":
 		rm1 := new(big.Int).Sub(bigR, one)
 		states := [][]*big.Int{{big.NewInt(0), big.NewInt(0), big.NewInt(0), big.NewInt(0)}, {big.NewInt(0), big.NewInt(1), big.NewInt(2), big.NewInt(3)}, {rm1, rm1, rm1, rm1},
